@@ -1,6 +1,6 @@
 (* Props_C15.v — C15: dissemination accounting for cluster updates. *)
 From Foca Require Import Laws BcastM FocaM L_Bcast L_Fill L_Members L_MembersInv Inv Reach L_Wire L_Dissem L_BacklogOps.
-From Foca Require Import L_TxAccount L_FanOut L_SendTx L_Evidence L_TxPass.
+From Foca Require Import L_TxAccount L_FanOut L_SendTx L_Evidence L_TxPass Concrete ConcreteLaws.
 From Coq Require Import Relations.
 From Coq Require Import Sorted.
 
@@ -167,6 +167,20 @@ Proof. repeat split. Qed.
 
 End C15.
 
+(* non-vacuity: two members accepted with broadcasting on, then two gossip rounds: 8 update
+   transmissions carried, 12 still owed, 20 = 2 acceptances x max_transmissions 10 credited - the
+   ledger is tight *)
+Definition ex15_cfg : config := mkConfig 1500000000 500000000 3 10 3000000000 86400000000000 1400 false None None None.
+Definition ex15_f0 : @foca cid N cid_handler := foca_init (mkCid 1 0 0 0) ex15_cfg (mkChst 0 255 []).
+Definition ex15_o : oracle := fun _ r => match r with RShuffle _ => [0; 1; 2; 3] | RChoose _ => [0] | RRange _ => [0] | RTie _ _ => [] end.
+Definition ex15_hist : list (@input cid) :=
+  [IApplyMany [mkMember (mkCid 2 0 0 0) 0 Alive; mkMember (mkCid 3 0 0 0) 0 Alive] true; IGossip; IGossip].
+Example C15_ledger_example :
+  carried_hist ex15_o ex15_f0 ex15_hist = 8
+  /\ credit_hist ex15_o ex15_f0 ex15_hist = 20
+  /\ total (updates (run_calls ex15_o ex15_f0 ex15_hist)) = 12.
+Proof. vm_compute. auto. Qed.
+
 Print Assumptions C15_backlog_operations.
 Print Assumptions C15_backlog_changes_only_so.
 Print Assumptions C15_backlog_invariant.
@@ -185,3 +199,4 @@ Print Assumptions C15_ledger_of_one_call.
 Print Assumptions C15_ledger_of_a_history.
 Print Assumptions C15_every_transmission_is_paid_for.
 Print Assumptions C15_history_terms.
+Print Assumptions C15_ledger_example.
